@@ -130,8 +130,12 @@ def trashed_files_to_restore(input_read,  # type: InputRead
     try:
         sequences = parse_indexes(input_read.user_input,
                                   len(input_read.trashed_files))
+        indexes = []
+        for index in sequences.all_indexes():
+            if index not in indexes:  # an index given twice is restored once
+                indexes.append(index)
         file_to_restore = [input_read.trashed_files[index] for index in
-                           sequences.all_indexes()]
+                           indexes]
         selected_files = SelectedFiles(file_to_restore, input_read.overwrite)
         return Right(selected_files)
     except InvalidEntry as e:
